@@ -733,6 +733,35 @@ JIT_ARGS = [p for p in POOL if (p[0], p[1]) in {
 
 
 # --------------------------------------------------------------------------------------------------
+def runtime_constant_histories(ck):
+    """Values that enter the constant / interner tables at RUN time (string->symbol, string->keyword-like names, eval of
+    a constructed quote) are later written as literals by units that introduce no other new constant, with failing
+    units in between: every unit has to give its value or an error value, never a panic."""
+    cases, wants = [], []
+    for k, mk in enumerate(['(string->symbol "c07rt-%d")', '(string->symbol (string-append "c07" "rt-%d"))',
+                            '(car (list (string->symbol "c07rt-%d")))', '(eval (list (quote quote) (string->symbol "c07rt-%d")))']):
+        name = "c07rt-%d" % k
+        units = ["(define c07made %s)" % (mk % k), "(car c07made)", "(eq? c07made '%s)" % name, "(list '%s c07made)" % name,
+                 "(car 5)", "(symbol->string '%s)" % name, "(define (c07use) (list '%s))" % name, "(c07use)", PROBE]
+        cases.append(units)
+        wants.append({2: "#t", 3: "('\"%s\" '\"%s\")" % (name, name), 5: '"%s"' % name, 7: "('\"%s\")" % name})
+    for env in ({"STEEL_JIT": "true"}, {"STEEL_JIT": "false"}):
+        res = run_cases(ck, cases, env=env, fresh=True, batch=2, stall=30)
+        for units, want, r in zip(cases, wants, res):
+            for i, u in enumerate(units):
+                ck.cov["evaluations"] += 1
+                o = (r[i] if i < len(r) else None) or {"missing": 1}
+                kind = kind_of_outcome(o) if "missing" not in o else "missing"
+                bad = kind not in ("ok", "err") or (i in want and (o.get("ok") or [None])[-1] != want[i])
+                if bad:
+                    ck.failing_input("history with a run-time constant, unit %d `%s` (JIT %s): %s, expected %s"
+                                     % (i, u, env["STEEL_JIT"], json.dumps(o)[:200], want.get(i, "a value or an error value")),
+                                     {"search": "runtime-constant", "units": units[:i + 1], "unit": i, "outcome": o, "kind": kind,
+                                      "jit": env["STEEL_JIT"]}, tag="rtconst")
+                    break
+    ck.cov["runtime_constant_histories"] = len(cases)
+
+
 SIS_STRINGS = ["", "abc", "\u03b1\u03b2\u03b3", "a\u00e9\U0001F600b", "\U0001F600\U0001F600", "\u65e5\u672c\u8a9ex"]
 SIS_FUNCS = ["substring", "string->list", "string->vector", "string->bytes"]
 
@@ -898,6 +927,8 @@ def run(ck):
 
     # ---------------- character-indexed string built-ins: every index pair on multi-byte strings -----
     string_index_sweep(ck)
+    # ---------------- constants that come into being at run time and are written as literals later ------
+    runtime_constant_histories(ck)
     # ---------------- JIT-on sweep ------------------------------------------------------------------
     forms = JIT_FORMS if not quick else rng.sample(JIT_FORMS, 16) + ["(zero? x)", "(sub1 x)"]
     jcases, jmeta = [], []
